@@ -276,6 +276,9 @@ def check_C03(ctx):
          note='2-, 3- and 4-byte characters cut at every position by the end pointer, the missing continuation bytes right behind it')
     # C03_ascii_agrees, on the implementation alone: modes 6531 and 5321 decide identically on pure ASCII
     lib = ctx.snap.lib()
+    nonascii = [bytes.fromhex(l.split()[1]) for l in gens.local_class(5) + sub(ctx, gens.utf8_lines(False), 3) if l.split()[1] != '-']
+    nonascii += [p + c.encode() + q for c in ('\u00fc', '\u042e', '\u20ac', '\U0001f600') for p in (b'', b'a', b'"', b'"a ', b'"a\t', b'a.', b'"a" ') for q in (b'', b'b', b'"', b'b"', b' b"', b'.b', b'"b')]
+    homomorphism_check(ctx, lib, 'C03_non_ascii_as_one_more_character', nonascii, 1, 'mode 6531 on a well-formed non-ASCII local part = mode 5321 on its ASCII image; relation on implementation outputs')
     lines = [l for l in gens.local_class(5, alpha=[b'a', b'.', b'"', b'\\', b' ', b'\t', b'(', b'\x01', b'\x7f', b'#'])]
     c_out, _ = vlib.run_both(lib, ctx.snap, lines)
     bad = [(l, o) for l, o in zip(lines, c_out) if len(o.split(' ')) == 4 and dec(o.split(' ')[1]) != dec(o.split(' ')[3])]
@@ -309,6 +312,38 @@ def check_C03(ctx):
     fl = facade_lines(addrs[::2], orc6, modes=(3,), tlds=(0,))
     corr(ctx, 'local@domain(facade)', fl, facade_decision, nontrivial=lambda ln, o: True, describe=lambda ln, a, b: 'eav_is_email (mode 6531) decision differs from the model: %s vs %s' % (a, b))
     return finish(ctx, rule='L cases: is_6531_local on byte strings; E/A cases: the same local parts through is_6531_email and eav_is_email before host-name and literal domains; projection = accept/reject in mode 6531; non-trivial = non-empty input; distinct by case line')
+
+def ascii_image(lp):
+    """a well-formed UTF-8 local part with every non-ASCII character replaced by the letter x (one more atom / quoted-text character);
+    None if it is not well-formed UTF-8, has no non-ASCII character, or a non-ASCII character follows a backslash (mode 6531 refuses to escape those)"""
+    try: t = lp.decode('utf-8', 'strict')
+    except UnicodeDecodeError: return None
+    if all(ord(c) < 128 for c in t) or '\x00' in t: return None
+    out = []; esc = False
+    for c in t:
+        if ord(c) >= 128:
+            if esc: return None
+            out.append('x'); esc = False
+        else:
+            out.append(c); esc = (c == '\\' and not esc)
+    return ''.join(out).encode()
+
+def homomorphism_check(ctx, lib, relname, locals_, ascii_field, note):
+    """mode 6531 judges a well-formed non-ASCII local part exactly as the ASCII mode `ascii_field` (1 = 5321, 2 = 5322) of the same build judges its
+    ASCII image — evaluated on implementation outputs alone"""
+    pairs = [(lp, ascii_image(lp)) for lp in locals_]
+    pairs = [(a, b) for a, b in pairs if b is not None and len(a) <= 200]
+    if not pairs: return
+    la = ['L %s -' % hx(a) for a, b in pairs]; lb = ['L %s -' % hx(b) for a, b in pairs]
+    ca, _ = vlib.run_both(lib, ctx.snap, la); cb, _ = vlib.run_both(lib, ctx.snap, lb)
+    ctx.rep.add_cases(relname, la, ca, lambda ln, o: True, note=note)
+    nb = 0
+    for (a, b), oa, ob in zip(pairs, ca, cb):
+        fa, fb = oa.split(' '), ob.split(' ')
+        if len(fa) == 4 and len(fb) == 4 and dec(fa[3]) != dec(fb[ascii_field]) and nb < 3:
+            nb += 1
+            relation_violation(ctx, relname, {'local_part': hx(a), 'ascii_image': hx(b), 'mode_6531_on_local_part': fa[3], 'ascii_mode_on_image': fb[ascii_field],
+                               'explanation': 'a well-formed non-ASCII local part is judged differently from its ASCII image (every non-ASCII character read as one more atom / quoted-text character)'})
 
 # ------------------------------------------------------------------ C12
 def is_plain_ascii(b):
@@ -772,6 +807,16 @@ def check_C13(ctx):
             body = ' '.join([gens.enc_e(x, orc2)] * (n - 1))
             pairs.append('A i r%d s %s %s x f' % (m, body, gens.enc_e(y, orc2)))
             fresh.append('A i r%d s %s x f' % (m, gens.enc_e(y, orc2)))
+    # long addresses (every length the sources mention as a number, and the usual suspects) right after ordinary ones: whatever the
+    # library does with an oversized input, it must record that outcome, not keep the previous one
+    for k in sorted(set([n for n in nums if 65 <= n <= 5000] + [65, 128, 254, 255, 256, 257, 320, 321, 512, 1000, 1024, 4096])):
+        for d in (-1, 0, 1, 2):
+            n = k + d
+            ys = [b'a' * 10 + b'@' + ((b'b' * 60 + b'.') * (n // 61 + 1))[:max(n - 15, 1)] + b'.com', b'a@[' + b'1.2.3.' + b'0' * max(n - 10, 1) + b'4]', b'"' + b'a' * max(n - 9, 1) + b'"@b.com']
+            for y in ys:
+                for (x, m) in ((b'a@[1.2.3.4]', 1), (b'a@-a.org', 3), (b'a@b.com', 3)):
+                    pairs.append('A i r%d s %s %s x f' % (m, gens.enc_e(x, orc2), gens.enc_e(y, {})))
+                    fresh.append('A i r%d s %s x f' % (m, gens.enc_e(y, {})))
     c_p, _ = vlib.run_both(lib, ctx.snap, pairs)
     c_f, _ = vlib.run_both(lib, ctx.snap, fresh)
     ctx.rep.add_cases('reused-vs-fresh', pairs, c_p, lambda ln, o: True, note='relation on implementation outputs: last eav_is_email + eav_errstr of a history == same call on a fresh object with the same settings')
@@ -845,6 +890,12 @@ def check_C15(ctx):
     for nme, l, t in tab['tld']:
         byclass.setdefault(t, bytes.fromhex(nme))
     addrs += [b'a@b.' + v for v in byclass.values()]
+    # non-ASCII characters next to the structural characters of a local part (among them code points whose low byte is '.', '"', '@', '\\')
+    for ch in ['\u00e9', '\u012e', '\u042e', '\u062e', '\u4e2e', '\U0001f62e', '\u0122', '\u0422', '\u0140', '\u045c', '\u20ac', '\U0001f600']:
+        x = ch.encode()
+        addrs += [x + b'.a@b.ru', b'a.' + x + b'.b@b.ru', x + b'"a"@b.ru', b'"' + x + b'"@b.ru', b'a' + x + b'@b.ru', x + b'..a@b.ru', b'.' + x + b'@b.ru', x + b'.@b.ru', b'"a' + x + b'@b.ru', b'"\\' + x + b'"@b.ru']
+    addrs += [bytes.fromhex(l.split()[1]) + b'@b.ru' for l in sub(ctx, gens.utf8_lines(False), 11) if l.split()[1] != '-' and b'\x00' not in bytes.fromhex(l.split()[1])]
+    addrs = sorted(set(addrs))
     orc = vlib.idn_oracle(gens.domains_of(addrs))
     el = gens.e_lines(addrs, orc)
     desc = lambda ln, a, b: 'error code differs from the model the C15 theorems are about: implementation %s, model %s' % (a, b)
@@ -1048,6 +1099,11 @@ def check_C17(ctx):
         corr(ctx, name + ':domain', D, lambda ln, o: o, lib=lib, describe=desc, genuine=False, nontrivial=lambda ln, o: not o.startswith('-16'))
         corr(ctx, name + ':email', E, first_fields(3), lib=lib, describe=desc, genuine=False, nontrivial=nontriv_addr)
         outs[(r20, f53, us)] = tuple(vlib.run_both(lib, ctx.snap, X)[0] for X in (L, D, E))
+        if not r20 and not f53:      # (with FOLLOW_RFC5322 the code lets white space stand before a non-ASCII character, which mode 5322 does not do for a letter)
+            nonascii = [bytes.fromhex(l.split()[1]) for l in L if l.split()[1] != '-']
+            nonascii += [p + c.encode() + q for c in ('\u00fc', '\u042e', '\u20ac', '\U0001f600') for p in (b'', b'a', b'"', b'"a ', b'"a\t', b'"a\r\n ', b'a.', b'"a" ', b'" ') for q in (b'', b'b', b'"', b'b"', b' b"', b'.b', b'"b', b' "')]
+            homomorphism_check(ctx, lib, 'C17_non_ascii_as_one_more_character(%s)' % name, nonascii, 2 if f53 else 1,
+                               'mode 6531 on a well-formed non-ASCII local part = mode %s of the same build on its ASCII image' % ('5322' if f53 else '5321'))
     base = outs[(0, 0, 0)]
     nb = [0]
     def viol(rel, obj):
@@ -1453,6 +1509,29 @@ def check_C14(ctx):
                                'addresses_hex': [hx(a) for a in pool[:50]],
                                'explanation': 'concurrent validation differs from sequential validation and/or ThreadSanitizer reports an unsynchronised access to shared memory inside the library',
                                'replay': 'harness/threads.c built with -fsanitize=thread against a TSan build of /repo: %sthreads %d %d %d < addresses' % ('THREADS_COLD=1 ' if rounds == 0 else '', nt, max(rounds, 1), ctx.seed + k)})
+    # hammering: an uninstrumented build, 16 threads, a few addresses that take every path through the domain classification (reserved names
+    # with and without the root dot, listed / unlisted TLDs, IDN, literals), many times: shared state inside libc is invisible to TSan
+    hexe = os.path.join(ctx.snap.root, 'threads_plain.bin')
+    ld = ctx.snap.lib()
+    rc, out = vlib.sh(['gcc', '-O2', '-g', '-I' + os.path.join(ctx.snap.src, 'include'), os.path.join(vlib.HARN, 'threads.c'), os.path.join(ld.dir, 'libeav.a'), '-lidn2', '-lpthread', '-o', hexe])
+    if rc != 0:
+        raise vlib.BuildError('building harness/threads.c (plain) failed:\n' + out[-2000:])
+    hpool = [b'a@example.com.', b'x@example.biz.', b'a@EXAMPLE.ORG.', b'a@a.b.example.net', b'a@b.test', b'a@b.info', b'a@b.onion.', b'a@localhost', b'a@b.com', b'a@b.zz', b'a@b.adac',
+             b'a@xn--p1ai.xn--p1ai', 'я@почта.рф'.encode(), 'a@b.中国'.encode(), b'a@[1.2.3.4]', b'a@[IPv6:::1]', b'"a b"@c.org', b'a@b', b'a..b@c.de', b'a@-b.com', b'a@b.c-d', b'a@invalid.']
+    hin = ('\n'.join(hx(a) for a in hpool) + '\n').encode()
+    iters = 1500 if not ctx.thorough() else 20000
+    env2 = dict(os.environ); env2.update({'THREADS_HAMMER': str(iters), 'LC_ALL': 'C'})
+    try:
+        r = subprocess.run([hexe, '16', '1', str(ctx.seed)], input=hin, stdout=subprocess.PIPE, stderr=subprocess.PIPE, env=env2, timeout=900)
+        so = r.stdout.decode('utf-8', 'replace')
+        m = re.search(r'validations=(\d+)', so); total += int(m.group(1)) if m else 0
+        ctx.rep.samples.append({'generator': 'threads(hammer)', 'case': '16 threads x %d iterations x %d addresses, uninstrumented build' % (iters, len(hpool)), 'implementation': so.strip().splitlines()[-1] if so.strip() else 'no output'})
+        if r.returncode != 0:
+            ctx.rep.violation({'kind': 'threads', 'threads': 16, 'iterations': iters, 'exit_status': r.returncode, 'mismatches': [l for l in so.splitlines() if l.startswith('MISMATCH')][:5],
+                               'addresses_hex': [hx(a) for a in hpool], 'explanation': 'a thread obtained an outcome that a single thread never obtains for that address (16 threads validating the same addresses concurrently, uninstrumented build)',
+                               'replay': 'harness/threads.c built against /repo: THREADS_HAMMER=%d threads 16 1 %d < addresses' % (iters, ctx.seed)})
+    except subprocess.TimeoutExpired:
+        ctx.rep.violation({'kind': 'threads', 'explanation': 'hammer run did not finish in 900 s'})
     ctx.rep.evals += total
     import hashlib
     for a in pool: ctx.rep.nontrivial.add(hashlib.blake2b(a, digest_size=8).digest())
